@@ -41,6 +41,10 @@ pub struct Case06 {
     /// number of unstable best-chain blocks at that moment (so the request is inside the domain).
     #[serde(default)]
     pub conf: u8,
+    /// Per-round budgets for time-sliced ingestion (empty = unsliced): a page is also requested
+    /// at every pause of a stabilising block's ingestion.
+    #[serde(default)]
+    pub budgets: Vec<u16>,
 }
 
 struct Walk {
@@ -165,7 +169,20 @@ fn step_walk(w: &mut World, walk: &mut Walk, out: &mut Outcome, ctx: &str) {
         }
         Ok(Err(e)) => {
             // Allowed only if the tip is in fact no longer available.
-            let still_live = walk.tip_id.map(|t| w.model.live.contains(&t)).unwrap_or(false);
+            // At a pause of a sliced ingestion the model has not yet followed the advances the
+            // canister completed earlier in the same ingestion run (it is synchronised when the
+            // run ends): the live tree is then the subtree of the best-chain block at the
+            // canister's stable height (that every advance goes to the served chain is C03's
+            // oracle).
+            let k = (sut::stable_height() as usize).saturating_sub(w.model.anchor_height() as usize);
+            let best = w.model.best_chain();
+            let still_live = match (walk.tip_id, best.get(k)) {
+                (Some(t), Some(root)) => w.model.live.contains(&t) && w.model.is_ancestor_or_self(*root, t),
+                _ => false,
+            };
+            if k > 0 {
+                out.class("walk_page_after_unsynchronised_advance");
+            }
             if still_live {
                 out.fail(format!("{ctx}: page request failed ({e}) although the first response's tip is still in the tree"));
             } else {
@@ -254,14 +271,15 @@ impl Property for C06 {
             prop_oneof![8 => 1u8..=3, 1 => Just(0u8)],
             prop::collection::vec(blob, 0..4),
             prop_oneof![3 => Just(0u8), 2 => 1u8..=7],
+            prop_oneof![3 => Just(vec![]), 2 => prop::collection::vec(1u16..6, 1..4)],
         )
-            .prop_map(|(mut hist, start, addr, limit, blobs, conf)| {
+            .prop_map(|(mut hist, start, addr, limit, blobs, conf, budgets)| {
                 // Few scripts, so that one address collects many outputs.
                 hist.cfg.pool.truncate(3);
                 if !hist.cfg.pool.iter().any(|s| matches!(s, crate::chain::ScriptSpec::P2pkh(_) | crate::chain::ScriptSpec::P2wpkh(_) | crate::chain::ScriptSpec::P2tr(_) | crate::chain::ScriptSpec::P2sh(_) | crate::chain::ScriptSpec::P2wsh(_) | crate::chain::ScriptSpec::Wit { .. } | crate::chain::ScriptSpec::PrefixOf { .. })) {
                     hist.cfg.pool.push(crate::chain::ScriptSpec::P2pkh(0));
                 }
-                Case06 { hist, start, addr, limit, blobs, conf }
+                Case06 { hist, start, addr, limit, blobs, conf, budgets }
             })
             .boxed()
     }
@@ -275,7 +293,7 @@ impl Property for C06 {
         Some(("page_blob", fuzz_blob))
     }
     fn rule(&self) -> String {
-        "Histories as in C01 over a pool of <= 3 scripts; at a generated point a page walk is started for one address (first request without a filter or, in two of five cases, with min_confirmations 0..=number of unstable best-chain blocks, so that the snapshot is a cut view below the tip; page size 1..3 through the hook, or the real 1000 limit) and one further page is requested after every following operation (blocks on the same chain, competing forks, stabilisation, threshold changes, upgrades), the rest at the end. Oracle: the concatenation equals the model ledger as of the first response's tip (each element once, descending heights, <= limit per page, every page naming that tip), or the walk ends in an explicit error and that tip has in fact left the tree. Mutated page tokens (bit flips, truncation/extension, foreign tip hashes, height and outpoint edits, random bytes) must yield an error or an answer that is a duplicate-free, ordered sub-sequence of the ledger of the tip it names; never a trap. Non-trivial: a walk of >= 2 pages with >= 1 state-changing operation between two page requests; distinct = (tree shape at start, pages, interleaved operations, expected size) hashes.".into()
+        "Histories as in C01 over a pool of <= 3 scripts; at a generated point a page walk is started for one address (first request without a filter or, in two of five cases, with min_confirmations 0..=number of unstable best-chain blocks, so that the snapshot is a cut view below the tip; page size 1..3 through the hook, or the real 1000 limit) and one further page is requested after every following operation (and, in two of five cases, at every pause of a time-sliced ingestion with budgets of 1..5 operations) (blocks on the same chain, competing forks, stabilisation, threshold changes, upgrades), the rest at the end. Oracle: the concatenation equals the model ledger as of the first response's tip (each element once, descending heights, <= limit per page, every page naming that tip), or the walk ends in an explicit error and that tip has in fact left the tree. Mutated page tokens (bit flips, truncation/extension, foreign tip hashes, height and outpoint edits, random bytes) must yield an error or an answer that is a duplicate-free, ordered sub-sequence of the ledger of the tip it names; never a trap. Non-trivial: a walk of >= 2 pages with >= 1 state-changing operation between two page requests; distinct = (tree shape at start, pages, interleaved operations, expected size) hashes.".into()
     }
     fn assumptions(&self) -> Vec<String> {
         vec!["the hook verif_get_utxos_with_limit calls the same internal function as the endpoint with a smaller page size".into()]
@@ -295,6 +313,7 @@ impl Property for C06 {
             "walk_multi_page_real_1000_limit",
             "walk_started_with_min_confirmations",
             "walk_of_a_cut_view_below_the_tip",
+            "walk_page_while_ingestion_paused",
         ]
     }
     fn extra_cases(&self, tier: Tier) -> Vec<Case06> {
@@ -333,6 +352,7 @@ impl Property for C06 {
                 limit: 0,
                 blobs: vec![BlobMut::Height(1), BlobMut::ForeignTip(0)],
                 conf: if k % 2 == 0 { 0 } else { 2 + (k % 3) as u8 },
+                budgets: vec![],
             });
         }
         v
@@ -348,6 +368,7 @@ impl Property for C06 {
     fn run(&self, case: &Case06) -> Outcome {
         let mut out = Outcome::default();
         let mut w = World::new(&case.hist.cfg);
+        w.slice_budgets = case.budgets.clone();
         history_classes(&case.hist, &mut out);
         let addrs = w.distinct_addresses();
         let addr = addrs[case.addr as usize % addrs.len()].clone();
@@ -360,7 +381,25 @@ impl Property for C06 {
         let mut upgraded = false;
         let mut filtered_c = 0u32;
         for (i, op) in case.hist.ops.iter().enumerate() {
-            let info = w.apply(i, op);
+            let mut pause_out = Outcome::default();
+            let info = {
+                let walk_ref = &mut walk;
+                let addr_p = addr.clone();
+                w.apply_with(i, op, &mut |w2: &mut World, round: u32| {
+                    // one further page while the stabilising block is only partially ingested
+                    if let Some(wk) = walk_ref.as_mut() {
+                        if !wk.finished && wk.next.is_some() {
+                            pause_out.class("walk_page_while_ingestion_paused");
+                            step_walk(w2, wk, &mut pause_out, &format!("step {i} paused round {round} page walk for {addr_p}"));
+                        }
+                    }
+                })
+            };
+            out.checks += pause_out.checks;
+            out.discs.extend(pause_out.discs);
+            for (k, v) in pause_out.classes {
+                out.class_n(k, v);
+            }
             if step_errors(&info, &mut out) {
                 return out;
             }
